@@ -20,8 +20,8 @@ pub enum Call {
     GetDependencies(u32),
     Filter(u32, bool),
     Sort(Vec<u32>),
-    /// cancellation poll number k returned `fired`
-    Poll(u64, bool),
+    /// cancellation poll number k fired (second field: provider requests outstanding then)
+    Poll(u64, usize),
     /// a gated request completed (kind, key)
     Completed(ReqKind, u32),
 }
@@ -49,7 +49,7 @@ pub enum SortProbe {
 pub struct TableProvider {
     pub u: Rc<Universe>,
     pub ix: Rc<Index>,
-    pub log: RefCell<Vec<Call>>,
+    pub log: Rc<RefCell<Vec<Call>>>,
     pub polls: Cell<u64>,
     pub cancel: Cell<Cancel>,
     pub poll_budget: Cell<u64>,
@@ -67,7 +67,7 @@ impl TableProvider {
         TableProvider {
             u,
             ix,
-            log: RefCell::new(Vec::new()),
+            log: Rc::new(RefCell::new(Vec::new())),
             polls: Cell::new(0),
             cancel: Cell::new(Cancel::Never),
             poll_budget: Cell::new(2_000_000),
@@ -301,7 +301,8 @@ impl DependencyProvider for TableProvider {
             Cancel::Sticky(at) => k >= at,
         };
         if fire {
-            self.log.borrow_mut().push(Call::Poll(k, true));
+            let outstanding = self.sched.as_ref().map(|s| s.outstanding().len()).unwrap_or(0);
+            self.log.borrow_mut().push(Call::Poll(k, outstanding));
             return Some(Box::new(k));
         }
         if k >= self.poll_budget.get() {
